@@ -453,3 +453,97 @@ def propagate_attribute_aliases(trees: Dict[str, ast.Module]) -> int:
             if isinstance(x, ast.FunctionDef):
                 do_function(x)
     return done
+
+
+# ---------------------------------------------------------------------------
+# table-driven code:  for name, fn in TABLE: total += fn(data[name])   is read as the statements it stands for
+# ---------------------------------------------------------------------------
+def unroll_literal_loops(trees: Dict[str, ast.Module], max_rows: int = 32) -> int:
+    """a `for` over a literal tuple / list - written in place, or a module-level name bound once to one and never changed -
+    whose rows match the shape of the loop target, whose body neither breaks, continues nor rebinds the loop variables, and
+    which has no else clause, is replaced by one copy of its body per row with the loop variables replaced by the row's
+    elements.  A table-driven refactor (sections and their validators, fields and their setters) then shows the calls it
+    makes.  Returns the number of loops unrolled."""
+    done = 0
+    touched = set()
+    for mod, t in trees.items():
+        consts = {}
+        counts = {}
+        for b in t.body:
+            if isinstance(b, ast.Assign) and len(b.targets) == 1 and isinstance(b.targets[0], ast.Name):
+                consts[b.targets[0].id] = b.value
+        for x in ast.walk(t):
+            if isinstance(x, ast.Name) and isinstance(x.ctx, (ast.Store, ast.Del)):
+                counts[x.id] = counts.get(x.id, 0) + 1
+        mutated = set()
+        for x in ast.walk(t):
+            if isinstance(x, ast.Call) and isinstance(x.func, ast.Attribute) and isinstance(x.func.value, ast.Name) and x.func.attr in ("append", "extend", "insert", "pop", "remove", "clear", "sort", "reverse"):
+                mutated.add(x.func.value.id)
+            if isinstance(x, ast.Subscript) and isinstance(x.ctx, (ast.Store, ast.Del)) and isinstance(x.value, ast.Name):
+                mutated.add(x.value.id)
+            if isinstance(x, ast.AugAssign) and isinstance(x.target, ast.Name):
+                mutated.add(x.target.id)
+
+        def table_of(it):
+            if isinstance(it, ast.Name) and it.id in consts and counts.get(it.id, 0) == 1 and it.id not in mutated:
+                it = consts[it.id]
+            if isinstance(it, (ast.Tuple, ast.List)) and 0 < len(it.elts) <= max_rows and not any(isinstance(e, ast.Starred) for e in it.elts):
+                return it.elts
+            return None
+
+        def simple(e):
+            return isinstance(e, (ast.Constant, ast.Name)) or (isinstance(e, ast.Attribute) and _chain(e))
+
+        def rewrite(body, fn_locals):
+            nonlocal done
+            out = []
+            for s in body:
+                for fld in ("body", "orelse", "finalbody"):
+                    b = getattr(s, fld, None)
+                    if isinstance(b, list) and b and isinstance(b[0], ast.stmt) and not isinstance(s, (ast.FunctionDef, ast.ClassDef)):
+                        setattr(s, fld, rewrite(b, fn_locals))
+                for h in getattr(s, "handlers", []) or []:
+                    h.body = rewrite(h.body, fn_locals)
+                rows = table_of(s.iter) if isinstance(s, ast.For) and not s.orelse else None
+                if rows is not None and isinstance(s.iter, ast.Name) and s.iter.id in fn_locals:
+                    rows = None  # shadowed by a local
+                if rows is None:
+                    out.append(s)
+                    continue
+                tg = s.target
+                names = [tg.id] if isinstance(tg, ast.Name) else ([e.id for e in tg.elts] if isinstance(tg, (ast.Tuple, ast.List)) and all(isinstance(e, ast.Name) for e in tg.elts) else None)
+                ok = names is not None
+                if ok:
+                    for x in ast.walk(ast.Module(body=s.body, type_ignores=[])):
+                        if isinstance(x, (ast.Break, ast.Continue, ast.FunctionDef, ast.Lambda)) or (isinstance(x, ast.Name) and x.id in names and isinstance(x.ctx, (ast.Store, ast.Del))):
+                            ok = False
+                            break
+                if ok:
+                    for r in rows:
+                        if isinstance(tg, ast.Name):
+                            ok = ok and simple(r)
+                        else:
+                            ok = ok and isinstance(r, (ast.Tuple, ast.List)) and len(r.elts) == len(names) and all(simple(e) for e in r.elts)
+                if not ok:
+                    out.append(s)
+                    continue
+                new = []
+                for r in rows:
+                    mp = {names[0]: r} if isinstance(tg, ast.Name) else dict(zip(names, r.elts))
+                    sub = _Subst(mp, {})
+                    new.extend(sub.visit(copy.deepcopy(b_)) for b_ in s.body)
+                _relocate(new, s)
+                for x in new:
+                    ast.fix_missing_locations(x)
+                out.extend(new)
+                done += 1
+                touched.add(mod)
+            return out
+
+        for x in ast.walk(t):
+            if isinstance(x, ast.FunctionDef):
+                loc = {y.id for y in ast.walk(x) if isinstance(y, ast.Name) and isinstance(y.ctx, ast.Store)} | {a.arg for a in x.args.args + x.args.kwonlyargs}
+                x.body = rewrite(x.body, loc)
+    for mod in touched:
+        renumber(trees[mod])
+    return done
